@@ -47,6 +47,14 @@ var vC03Programs = []string{
 	`(defn sumto [i acc] (let [m 1] (cond (< i 2) (sumto (+ i m) (+ acc i)) acc))) (defn user [i] (let [r (sumto 0 0) g (fn [] i)] (+ (* 1000 i) (+ (* 10 (g)) r)))) (user 9001)`,
 	// 19 the same with the recursion in newScope and the closure created before the call
 	`(defn down [n] (newScope (def q n) (cond (> q 0) (down (- q 1)) q))) (defn user [x] (let [g (fn [] x)] (down 2) (+ (g) x))) (user 9001)`,
+	// 20 set from two closure levels down reaches the enclosing function's variable
+	`(defn outer [v] (defn mid [] (defn inner [] (set v (+ v 9001))) (inner)) (mid) v) (outer 9002)`,
+	// 21 sibling closures: the setter is nested one fn deeper than the getter
+	`(defn mk [v] (list (fn [] ((fn [] (set v (+ v 1))))) (fn [] v))) (def p (mk 9001)) ((first p)) ((first p)) ((first (rest p)))`,
+	// 22 three levels, the variable is a let local of the outermost function; set in argument position
+	`(defn mk [a] (let [v a] (fn [] (fn [] (+ 0 (set v (+ v 9002))))))) (def f (mk 9001)) (def g (f)) (g) (+ (g) 0)`,
+	// 23 set of a global from three closure levels
+	`(def x 9001) (defn mk [] (fn [] (fn [] (fn [] (set x (+ x 1)))))) ((((mk)))) x`,
 	// 17 function defined in let refers to let variable after let exits
 	`(def g (let [x 9001] (fn [y] (+ x y)))) (let [x 9002] (g 9003))`,
 }
@@ -130,7 +138,13 @@ func vh_C03_grammar() {
 		vL(s("def"), s("x"), vSmallInt("gx")),
 		vL(s("def"), s("y"), vSmallInt("gy")),
 	}
-	switch vChoice("skeleton", 2) {
+	switch vChoice("skeleton", 3) {
+	case 2: // the body two closure levels below the function whose parameter it may use or set
+		forms = append(forms,
+			vL(s("defn"), s("mk"), vA(e, s("y")), vL(s("fn"), vA(e, s("x")), vL(vL(s("fn"), vA(e), body)))),
+			vL(s("def"), s("f"), vL(s("mk"), vSmallInt("my"))),
+			vL(s("t"), vL(s("let"), vA(e, s("x"), vSmallInt("cx"), s("y"), vSmallInt("cy")), vL(s("f"), vSmallInt("arg")))),
+			vL(s("t"), vL(s("f"), vSmallInt("arg2"))))
 	case 0:
 		forms = append(forms,
 			vL(s("defn"), s("f"), vA(e, s("x")), body),
